@@ -3,6 +3,7 @@ package c08
 import (
 	"fmt"
 	"os"
+	"os/exec"
 	"path/filepath"
 	"strings"
 	"sync/atomic"
@@ -390,8 +391,73 @@ func runLayouts(r *fw.Run) {
 	}, evalLayout)
 }
 
+// ---------- (c) free-running repeats of the plain CLI (runtime's own random map order) ----------
+
+type repeatCase struct {
+	wi     int
+	args   []string
+	desc   string
+	diffTo string
+}
+
+func runRepeats(r *fw.Run) {
+	bin := os.Getenv("VERIF_CLI_BIN")
+	if bin == "" {
+		r.HarnessError("VERIF_CLI_BIN is not set (run through run.sh)")
+		return
+	}
+	n := 12
+	if !r.Quick() {
+		n = 60
+	}
+	r.Bounds["free_running_repeats_per_command"] = n
+	fw.Explore(r, "free-running-repeats", fw.Full, func(c *fw.Ctx) repeatCase {
+		wi := c.Choose(len(layoutWorlds), "world")
+		cmd := c.Choose(2, "list | diff")
+		dir := filepath.Join(fw.Scratch, fmt.Sprintf("c08-base%d", wi))
+		if cmd == 0 {
+			f := fw.Pick(c, listFormats, "-o")
+			exp := c.Choose(2, "--exposure") == 1
+			if exp && layoutWorlds[wi].admin {
+				c.Skip()
+			}
+			args := []string{"list", "--dirpath", dir, "-o", f, "-q"}
+			if exp {
+				args = append(args, "--exposure")
+			}
+			return repeatCase{wi: wi, args: args, desc: fmt.Sprintf("world=%d list -o %s exposure=%v", wi, f, exp)}
+		}
+		f := fw.Pick(c, diffFormats, "-o")
+		return repeatCase{wi: wi, args: []string{"diff", "--dir1", dir, "--dir2", layoutOther, "-o", f, "-q"}, desc: fmt.Sprintf("world=%d diff -o %s", wi, f)}
+	}, func(cs repeatCase, x *fw.Rec) {
+		x.Describe(func() any {
+			return map[string]any{"command": strings.Join(cs.args, " "), "world": layoutWorlds[cs.wi].w.Brief()}
+		})
+		var first []byte
+		for i := 0; i < n; i++ {
+			out, err := exec.Command(bin, cs.args...).Output()
+			if err != nil {
+				x.Fail("harness: the CLI fails on a layout world", "", fmt.Sprintf("%s: %v", cs.desc, err))
+				return
+			}
+			if i == 0 {
+				first = out
+			} else if string(out) != string(first) {
+				x.Fail("two runs of the same command on the same input print different bytes: "+cmdClass(strings.Join(cs.args[:1], " ")+" -o "+cs.args[len(cs.args)-2]), "",
+					fmt.Sprintf("%s (run 1 vs run %d)\n--- run 1\n%s\n--- run %d\n%s", cs.desc, i+1, clip(string(first)), i+1, clip(string(out))))
+				return
+			}
+		}
+		x.Outcome(string(first))
+		x.Nontrivial(cs.desc)
+		x.AddStates(int64(n))
+		x.AddTransitions(int64(n))
+		x.Count("free_running_cli_runs", int64(n))
+	})
+}
+
 func Run(r *fw.Run) {
-	r.Rule = "(a) schedules: every range over a map in pkg/ is a scheduler choice point (source-to-source overlay); for each world all schedules with <=1 deviating range execution (thorough: <=2) are executed and every command/format output is compared byte-for-byte with the canonical schedule; (b) input order: all permutations of semantically unordered lists (rules of a policy, peers / ports of a rule, matchExpressions, values, policies, policyTypes, container ports) over the exposure alphabet, and all document permutations x file partitions x file-name schemes of small worlds on disk; states = executions (schedules / layouts), transitions = outputs compared"
+	r.Rule = "(a) schedules: every range over a map in pkg/ is a scheduler choice point (source-to-source overlay); for each world all schedules with <=1 deviating range execution (thorough: <=2) are executed and every command/format output is compared byte-for-byte with the canonical schedule; (b) input order: all permutations of semantically unordered lists (rules of a policy, peers / ports of a rule, matchExpressions, values, policies, policyTypes, container ports) over the exposure alphabet, and all document permutations x file partitions x file-name schemes of small worlds on disk; (c) the plain (un-instrumented) CLI binary is run 12 (thorough 60) times per command/format on the layout worlds under the runtime's own random map order and must print identical bytes; states = executions (schedules / layouts), transitions = outputs compared"
 	r.Assume = []string{"maps iterated inside dependencies (apimachinery, encoding/json, fmt) are not instrumented; the canonical run of every world is executed twice and must reproduce byte-identically",
 		"alternatives per dynamic range execution over n keys: all n!-1 other orders for n<=3, else reverse, rotate-by-one and move-element-i-to-front",
 		"only returned strings / verdicts are compared; logs and the order of Errors() are not"}
@@ -403,6 +469,7 @@ func Run(r *fw.Run) {
 	if !r.IsWorker() {
 		runUnordered(r)
 		runLayouts(r)
+		runRepeats(r)
 	}
 	runSchedules(r)
 }
